@@ -14,7 +14,6 @@ import (
 	"github.com/attestantio/go-eth2-client/spec/phase0"
 	"github.com/attestantio/vouch/internal/vnd"
 	"github.com/attestantio/vouch/internal/vstub"
-	"github.com/rs/zerolog"
 )
 
 // one node per submission kind, each recording what it is offered
@@ -72,7 +71,7 @@ func VerifC08_Immediate() {
 	}
 	kind := vnd.Choose("kind", 8)
 	nodes[kind].reject = vnd.Bool("node.rejects")
-	s, err := New(context.Background(), WithLogLevel(zerolog.Disabled), WithClientMonitor(vstub.ClientMonitor{}),
+	s, err := New(context.Background(), WithLogLevel(vnd.LogLevel()), WithClientMonitor(vstub.ClientMonitor{}),
 		WithProposalSubmitter(nodes[0]), WithAttestationsSubmitter(nodes[1]), WithBeaconCommitteeSubscriptionsSubmitter(nodes[2]),
 		WithAggregateAttestationsSubmitter(nodes[3]), WithProposalPreparationsSubmitter(nodes[4]), WithSyncCommitteeMessagesSubmitter(nodes[5]),
 		WithSyncCommitteeSubscriptionsSubmitter(nodes[6]), WithSyncCommitteeContributionsSubmitter(nodes[7]))
